@@ -4,6 +4,7 @@ import (
 	"context"
 	"fmt"
 	"io"
+	"math"
 	"strconv"
 	"strings"
 	"time"
@@ -84,6 +85,11 @@ func execAr1415[N timeseries.Number](red string, d int64, recsTxt string, parse 
 		}
 		in = append(in, timeseries.TsRecord[N]{Timestamp: r.Time(), Value: v})
 	}
+	// "<red>@h": the aligned-and-reduced stream VALUE is materialised a few times before the run that is observed - stopped
+	// after its first element, after two, and with a context cancelled beforehand: every period of the observed run must
+	// still carry the reduction of exactly its own values
+	hist := strings.HasSuffix(red, "@h")
+	red = strings.TrimSuffix(red, "@h")
 	var reducer timeseries.Reducer[N]
 	switch red {
 	case "sum":
@@ -97,7 +103,15 @@ func execAr1415[N timeseries.Number](red string, d int64, recsTxt string, parse 
 	default:
 		return "bad-case"
 	}
-	out, err := timeseries.AlignReduceStream(stream.Just(in...), timeseries.NewFixedAlignmentPeriod(time.Duration(d), time.UTC), reducer).Collect(context.Background())
+	aligned := timeseries.AlignReduceStream(stream.Just(in...), timeseries.NewFixedAlignmentPeriod(time.Duration(d), time.UTC), reducer)
+	if hist {
+		_, _ = aligned.FindFirst().GetOptional(context.Background())
+		_, _ = aligned.Limit(2).Collect(context.Background())
+		cctx, cancel := context.WithCancel(context.Background())
+		cancel()
+		_, _ = aligned.Collect(cctx)
+	}
+	out, err := aligned.Collect(context.Background())
 	if err != nil {
 		return "err " + errClass1415(err)
 	}
@@ -445,7 +459,24 @@ func genAr1415(c *Ctx) {
 				for _, red := range reds {
 					c.Case(n >= 2, fmt.Sprintf("ar %s %s %d | %s", red, ty, hourNs1415, strings.Join(recs, ",")))
 				}
+				if n >= 2 {
+					c.Case(true, fmt.Sprintf("ar %s@h %s %d | %s", reds[n%len(reds)], ty, hourNs1415, strings.Join(recs, ",")))
+				}
 			}
+		}
+	}
+	// floating values of large magnitude: the mean / extremum of a period is representable although the plain sum of the
+	// period is not (kept within (n-1)*max|v| <= MaxFloat64, the range in which the running update itself cannot overflow;
+	// beyond it - three values of 1.5e308 - the running mean is +Inf like any sum-based mean: IEEE range, outside C14)
+	for gi, g := range [][]float64{{1.5e308, 1.5e308}, {-1.5e308, -1.5e308}, {0.6e308, 0.6e308, 0.6e308}, {1.7e308, 1.2e308},
+		{-0.55e308, -0.6e308, -0.5e308}, {math.MaxFloat64, math.MaxFloat64}, {1.0e308, -1.0e308, 1.0e308}} {
+		var recs []string
+		for i, v := range g {
+			recs = append(recs, fmt.Sprintf("%d:%s", int64(gi%2)*hourNs1415+int64(i)*600e9, fbits1415(v)))
+		}
+		recs = append(recs, fmt.Sprintf("%d:%s", 5*hourNs1415, fbits1415(2.5)))
+		for _, red := range []string{"avg", "min", "max", "avg@h"} {
+			c.Case(true, fmt.Sprintf("ar %s f %d | %s", red, hourNs1415, strings.Join(recs, ",")))
 		}
 	}
 	c.Case(false, fmt.Sprintf("ar sum i %d | -", hourNs1415))
